@@ -90,6 +90,16 @@ public:
         by_name[n] = a;
       }
   }
+  // a named atom, or an unnamed one by the label it was given when it first appeared (n0, n1, ..)
+  const atom *find_atom(const std::string &n) const
+  {
+    if (const auto it = by_name.find(n); it != by_name.cend())
+      return it->second;
+    for (const auto &[a, l] : labels)
+      if (l == n)
+        return a;
+    return nullptr;
+  }
   std::string names(const std::unordered_set<atom *> &atms)
   {
     std::vector<std::string> ls;
@@ -277,22 +287,22 @@ int main(int argc, char *argv[])
             }
             else if (st.kind == "ps" || st.kind == "pe")
             {
-              const auto it = r->by_name.find(st.name);
-              if (it == r->by_name.cend())
+              const atom *at = r->find_atom(st.name);
+              if (!at)
                 continue;
               log << (st.kind == "ps" ? "pre_dont_start " : "pre_dont_end ") << st.name << " " << to_string(st.amount) << ";";
               if (st.kind == "ps")
-                e->dont_start_yet({{it->second, st.amount}});
+                e->dont_start_yet({{at, st.amount}});
               else
-                e->dont_end_yet({{it->second, st.amount}});
+                e->dont_end_yet({{at, st.amount}});
             }
             else if (st.kind == "f")
             {
-              const auto it = r->by_name.find(st.name);
-              if (it == r->by_name.cend())
+              const atom *at = r->find_atom(st.name);
+              if (!at)
                 continue;
               log << "failure " << st.name << ";";
-              e->failure({const_cast<atom *>(it->second)});
+              e->failure({const_cast<atom *>(at)});
               r->plan();
             }
           }
